@@ -14,9 +14,20 @@ Extracted (pure `ast`; raises when the source no longer has a shape whose meanin
     `task.cancel()` call, the swallowed `CancelledError`.
 
 Code is located by ROLE, not by position or by the names of locals.  Every function body is normalised first:
-docstrings / logging calls / `pass` dropped; locals that only feed log messages removed; single-assignment locals
-inlined (also `_, rest = g.split(E)` as `g.split(E)[1]`); guard clauses (`if c: return|raise|continue|break`) turned
-into `if c: … else: <rest>`; `try … else: X` into `try …; X` when every handler leaves.  Conditions are then read off
+docstrings / logging calls / `pass` / effect-free expression statements dropped; keyword arguments of `asyncio.sleep`,
+`asyncio.wait`, `create_task`, `.cancel` made positional; calls of same-class private methods (also static ones) and
+module-level private functions INLINED — as statements (`[x =] [await] self._h(args)`: parameters bound incl. keywords
+and defaults, the helper's locals renamed apart, every `return` must be in tail position) and inside expressions (a
+helper that is just `return <expr>`); the anchors `_run`, `_run_loop`, `_delay_if_restart` and the flag-taking wait
+helper are never inlined; `if c: x = A else: x = B` read as `x = A if c else B`; locals that only feed log messages
+removed; single-assignment locals inlined (also `_, rest = g.split(E)` as `g.split(E)[1]`; never a snapshot of an
+attribute the function re-binds); in tests `True if c else b` = `c or b` (etc.), `len(x) > 0` = `x`, `len(x) == 0` =
+`not x`; an `if` with two empty branches dropped; `while True: if c: break; …` read as `while not c: …`; in a
+`while True:` body that ends in a `try`/`if`, a handler/branch that falls off its end gets its `continue` written
+out; guard clauses (`if c: return|raise|continue|break`) turned into `if c: … else: <rest>`; `try … else: X` into
+`try …; X` when every handler leaves; a bare `return` in tail position of a function dropped; comparisons with the
+restart counter oriented counter-left (`limit > n` = `n < limit`).  A helper that cannot be inlined soundly is left as
+a call, and the role matching then raises as before.  Conditions are then read off
 the PATHS through the if-tree (a condition is the disjunction, over the paths that reach the action, of the conjunction
 of the signed tests on the path), so inverted branches and early returns translate to equivalent Lean terms.
 """
@@ -133,6 +144,8 @@ def _is_noise(s: ast.stmt) -> bool:
         return True
     if isinstance(s, ast.Assert):
         return True
+    if isinstance(s, ast.Expr) and not _has(s.value, (ast.Call, ast.Await, ast.Yield, ast.YieldFrom, ast.NamedExpr)):
+        return True  # an expression without calls has no effect (left behind by inlining a helper whose value is unused)
     return False
 
 
@@ -239,6 +252,8 @@ def _simplify_locals(stmts: list[ast.stmt], params: set[str]) -> list[ast.stmt]:
             if isinstance(n, ast.AugAssign) and isinstance(n.target, ast.Name):
                 bound[n.target.id] = bound.get(n.target.id, 0) + 1
         simple = {t for s in allst if (t := _simple_target(s)) and t not in params}
+        stored_attrs = {_u(n) for n in ast.walk(ast.Module(body=stmts, type_ignores=[]))
+                        if isinstance(n, ast.Attribute) and isinstance(n.ctx, (ast.Store, ast.Del))}
         # 1. dead: never loaded outside assignments to dead names
         dead = set(simple)
         changed = True
@@ -277,6 +292,8 @@ def _simplify_locals(stmts: list[ast.stmt], params: set[str]) -> list[ast.stmt]:
                 continue
             if isinstance(s.value, (ast.List, ast.Dict, ast.Set, ast.ListComp, ast.SetComp)) or _u(s.value) == "set()":
                 continue  # a container that is mutated later
+            if any(isinstance(n, ast.Attribute) and _u(n) in stored_attrs for n in ast.walk(s.value)):
+                continue  # reads an attribute this function also re-binds: the local is a snapshot, not an alias
             uses = sum(1 for x in allst for n in ast.walk(x) if isinstance(n, ast.Name) and isinstance(n.ctx, ast.Load) and n.id == t)
             # (walking nested statements counts a use once per enclosing statement: normalise by direct count)
             uses = sum(1 for n in ast.walk(ast.Module(body=stmts, type_ignores=[])) if isinstance(n, ast.Name) and isinstance(n.ctx, ast.Load) and n.id == t)
@@ -317,14 +334,365 @@ def _guards(stmts: list[ast.stmt]) -> list[ast.stmt]:
     return out
 
 
-def _normalise(fn: ast.FunctionDef | ast.AsyncFunctionDef) -> list[ast.stmt]:
-    body = copy.deepcopy(fn.body)
+# Keyword arguments of well-known callables -> positional (the leading parameters, in signature order).
+KNOWN_SIGNATURES = {"asyncio.sleep": ["delay", "result"], "asyncio.wait": ["fs"], "asyncio.create_task": ["coro"]}
+KNOWN_METHOD_SIGNATURES = {"cancel": ["msg"]}        # asyncio.Task.cancel(msg=None), BackgroundService.cancel(msg=None)
+
+
+class _PositionalArgs(ast.NodeTransformer):
+    def visit_Call(self, node: ast.Call):  # noqa: N802
+        self.generic_visit(node)
+        sig = KNOWN_SIGNATURES.get(_u(node.func))
+        if sig is None and isinstance(node.func, ast.Attribute):
+            sig = KNOWN_METHOD_SIGNATURES.get(node.func.attr)
+        if sig is None or any(isinstance(a, ast.Starred) for a in node.args) or any(k.arg is None for k in node.keywords):
+            return node
+        kws = {k.arg: k for k in node.keywords}
+        while len(node.args) < len(sig) and sig[len(node.args)] in kws:
+            k = kws.pop(sig[len(node.args)])
+            node.args.append(k.value)
+            node.keywords.remove(k)
+        return node
+
+
+ANCHORS = {"_run", "_run_loop", "_delay_if_restart"}     # roles located by name: never inlined
+_uid = [0]
+
+
+class _Rename(ast.NodeTransformer):
+    def __init__(self, mapping: dict[str, str]):
+        self.mapping = mapping
+
+    def visit_Name(self, node: ast.Name):  # noqa: N802
+        if node.id in self.mapping:
+            node.id = self.mapping[node.id]
+        return node
+
+    def visit_ExceptHandler(self, node: ast.ExceptHandler):  # noqa: N802
+        if node.name in self.mapping:
+            node.name = self.mapping[node.name]
+        self.generic_visit(node)
+        return node
+
+
+def _tail_stmts(block: list[ast.stmt]):
+    """(block, index) of the statements in tail position of `block` (descending `if` branches and a final `try`)."""
+    if not block:
+        return
+    last = block[-1]
+    if isinstance(last, ast.If):
+        yield from _tail_stmts(last.body)
+        yield from _tail_stmts(last.orelse)
+    elif isinstance(last, ast.Try) and not last.finalbody:
+        for h in last.handlers:
+            yield from _tail_stmts(h.body)
+        yield from _tail_stmts(last.orelse if last.orelse else last.body)
+    else:
+        yield block, len(block) - 1
+
+
+def _drop_tail_returns(block: list[ast.stmt]) -> list[ast.stmt]:
+    """A bare `return` (or `return None`) in tail position of a function is a fall-through."""
+    changed = True
+    while changed:
+        changed = False
+        for b, i in list(_tail_stmts(block)):
+            r = b[i]
+            if isinstance(r, ast.Return) and (r.value is None or (isinstance(r.value, ast.Constant) and r.value.value is None)):
+                del b[i]
+                changed = True
+                break
+    return block
+
+
+def _pure(e: ast.AST) -> bool:
+    return not _has(e, (ast.Call, ast.Await, ast.Yield, ast.YieldFrom, ast.NamedExpr))
+
+
+def _callee(call: ast.Call, cls: ast.ClassDef | None, mod: ast.Module | None, exclude: set[str]):
+    f = call.func
+    if isinstance(f, ast.Attribute) and isinstance(f.value, ast.Name) and f.value.id == "self" and cls is not None:
+        name, scope, is_method = f.attr, cls, True
+    elif isinstance(f, ast.Name) and mod is not None:
+        name, scope, is_method = f.id, mod, False
+    else:
+        return None
+    if not name.startswith("_") or name.startswith("__") or name in ANCHORS or name in exclude:
+        return None
+    fns = [n for n in scope.body if isinstance(n, (ast.FunctionDef, ast.AsyncFunctionDef)) and n.name == name]
+    if len(fns) != 1:
+        return None
+    fn = fns[0]
+    a = fn.args
+    decos = [_u(d) for d in fn.decorator_list]
+    if decos == ["staticmethod"] and is_method:
+        is_method = False                                   # `self._h(x)` on a static method: no `self` parameter to skip
+    elif decos:
+        return None
+    if a.vararg or a.kwarg or a.posonlyargs:
+        return None
+    if any(isinstance(x, (ast.Yield, ast.YieldFrom, ast.FunctionDef, ast.AsyncFunctionDef, ast.Lambda, ast.Global, ast.Nonlocal,
+                          ast.ClassDef)) for st in fn.body for x in ast.walk(st)):
+        return None
+    return fn, is_method
+
+
+def _bind(fn, call: ast.Call, is_method: bool) -> dict[str, ast.expr] | None:
+    pos = [x.arg for x in fn.args.args]
+    defaults: dict[str, ast.expr] = {}
+    for name, d in zip(reversed(pos), reversed(fn.args.defaults)):
+        defaults[name] = d
+    if is_method:
+        pos = pos[1:]
+    kwonly = [x.arg for x in fn.args.kwonlyargs]
+    for name, d in zip(kwonly, fn.args.kw_defaults):
+        if d is not None:
+            defaults[name] = d
+    if any(isinstance(x, ast.Starred) for x in call.args) or any(k.arg is None for k in call.keywords) or len(call.args) > len(pos):
+        return None
+    bound: dict[str, ast.expr] = dict(zip(pos, call.args))
+    for k in call.keywords:
+        if k.arg in bound or k.arg not in pos + kwonly:
+            return None
+        bound[k.arg] = k.value
+    for name in pos + kwonly:
+        if name not in bound:
+            if name not in defaults:
+                return None
+            bound[name] = defaults[name]
+    return bound
+
+
+def _inline_call(s: ast.stmt, cls, mod, exclude: set[str], depth: int) -> list[ast.stmt] | None:
+    """`[x =] [await] self._helper(args)` / `[x =] [await] _helper(args)` -> the helper's statements (or None).
+
+    Only same-class private methods and module-level private functions; parameters are bound (positional, keyword,
+    defaults), the helper's locals are renamed apart, every `return` must be in tail position: without a target they are
+    dropped (a value must be effect-free), with a target each becomes `x = <value>`.
+    """
+    target = None
+    if isinstance(s, ast.Expr):
+        val = s.value
+    elif _simple_target(s) is not None:
+        target, val = _simple_target(s), s.value
+    else:
+        return None
+    awaited = isinstance(val, ast.Await)
+    call = val.value if awaited else val
+    if not isinstance(call, ast.Call):
+        return None
+    found = _callee(call, cls, mod, exclude)
+    if found is None:
+        return None
+    fn, is_method = found
+    if awaited != isinstance(fn, ast.AsyncFunctionDef):
+        return None
+    bound = _bind(fn, call, is_method)
+    if bound is None:
+        return None
+    body = _guards(_strip(_PositionalArgs().visit(ast.Module(body=copy.deepcopy(fn.body), type_ignores=[])).body))
+    body = _drop_tail_returns(body)
+    stored = {n.id for st in body for n in ast.walk(st) if isinstance(n, ast.Name) and isinstance(n.ctx, (ast.Store, ast.Del))}
+    stored |= {h.name for st in body for h in ast.walk(st) if isinstance(h, ast.ExceptHandler) and h.name}
+    stored |= {n.target.id for st in body for n in ast.walk(st) if isinstance(n, ast.AugAssign) and isinstance(n.target, ast.Name)}
+    if stored & set(bound):
+        return None                                         # the helper re-binds a parameter
+    _uid[0] += 1
+    tag = f"_h{_uid[0]}_"
+    mod_ = _Rename({n: tag + n for n in stored}).visit(ast.Module(body=body, type_ignores=[]))
+    pre: list[ast.stmt] = []
+    for name, arg in bound.items():
+        if isinstance(arg, (ast.Name, ast.Constant)):
+            mod_ = _Subst(name, arg).visit(mod_)
+        else:                                               # evaluated once, before the body, in parameter order
+            pre.append(ast.Assign(targets=[ast.Name(id=tag + name, ctx=ast.Store())], value=copy.deepcopy(arg), lineno=0))
+            mod_ = _Subst(name, ast.Name(id=tag + name, ctx=ast.Load())).visit(mod_)
+    body = mod_.body
+    rets = [n for st in body for n in ast.walk(st) if isinstance(n, ast.Return)]
+    tails = [(b, i) for b, i in _tail_stmts(body) if isinstance(b[i], ast.Return)]
+    if len(rets) != len(tails):
+        return None                                         # an early return that is not a tail: keep the call
+    if target is None:
+        if any(not _pure(b[i].value) for b, i in tails):
+            return None
+        for b, i in tails:
+            del b[i]
+    else:
+        if not tails or len(tails) != sum(1 for _ in _tail_stmts(body)):
+            return None                                     # some path falls off the end (returns None implicitly)
+        for b, i in tails:
+            b[i] = ast.Assign(targets=[ast.Name(id=target, ctx=ast.Store())], value=b[i].value, lineno=0)
+    out = pre + body
+    return _inline_helpers(out, cls, mod, exclude, depth + 1) if depth < 3 else out
+
+
+class _InlineExprHelpers(ast.NodeTransformer):
+    """`self._h(args)` / `_h(args)` inside an expression, where the (non-async) helper is just `return <expr>` and the
+    arguments are effect-free: the expression itself, with the parameters substituted."""
+
+    def __init__(self, cls, mod, exclude: set[str]):
+        self.cls, self.mod, self.exclude = cls, mod, exclude
+
+    def visit_Call(self, node: ast.Call):  # noqa: N802
+        self.generic_visit(node)
+        found = _callee(node, self.cls, self.mod, self.exclude)
+        if found is None or isinstance(found[0], ast.AsyncFunctionDef):
+            return node
+        fn, is_method = found
+        body = _strip(copy.deepcopy(fn.body))
+        if len(body) != 1 or not isinstance(body[0], ast.Return) or body[0].value is None or _has(body[0].value, ast.Await):
+            return node
+        bound = _bind(fn, node, is_method)
+        if bound is None or any(not _pure(a) for a in bound.values()):
+            return node
+        expr = _PositionalArgs().visit(body[0].value)
+        if any(isinstance(n, (ast.NamedExpr, ast.ListComp, ast.SetComp, ast.DictComp, ast.GeneratorExp)) for n in ast.walk(expr)):
+            return node                                     # binds names of its own
+        for name, arg in bound.items():
+            expr = _Subst(name, arg).visit(expr)
+        return self.visit(expr) if not any(n is node for n in ast.walk(expr)) else expr
+
+
+def _inline_helpers(stmts: list[ast.stmt], cls, mod, exclude: set[str], depth: int = 0) -> list[ast.stmt]:
+    if depth == 0:
+        stmts = _InlineExprHelpers(cls, mod, exclude).visit(ast.Module(body=stmts, type_ignores=[])).body
+    out: list[ast.stmt] = []
+    for s in stmts:
+        s = _map_blocks(s, lambda b: _inline_helpers(b, cls, mod, exclude, depth))
+        rep_ = _inline_call(s, cls, mod, exclude, depth)
+        out += [s] if rep_ is None else rep_
+    return out
+
+
+def _merge_branch_assign(stmts: list[ast.stmt]) -> list[ast.stmt]:
+    """`if c: x = A else: x = B`  ->  `x = A if c else B`."""
+    out = []
+    for s in stmts:
+        s = _map_blocks(s, _merge_branch_assign)
+        if isinstance(s, ast.If) and len(s.body) == 1 and len(s.orelse) == 1 and _simple_target(s.body[0]) is not None \
+                and _simple_target(s.body[0]) == _simple_target(s.orelse[0]) \
+                and not _has(s.body[0].value, ast.Await) and not _has(s.orelse[0].value, ast.Await):
+            s = ast.Assign(targets=[ast.Name(id=_simple_target(s.body[0]), ctx=ast.Store())],
+                           value=ast.IfExp(test=s.test, body=s.body[0].value, orelse=s.orelse[0].value), lineno=0)
+        out.append(s)
+    return out
+
+
+def _neg(e: ast.expr) -> ast.expr:
+    return e.operand if isinstance(e, ast.UnaryOp) and isinstance(e.op, ast.Not) else ast.UnaryOp(op=ast.Not(), operand=e)
+
+
+class _BoolIfExp(ast.NodeTransformer):
+    """Inside a TEST only (truthiness is all that matters): `True if c else b` = `c or b`, `a if c else False` = `c and a`, …"""
+
+    def visit_IfExp(self, node: ast.IfExp):  # noqa: N802
+        self.generic_visit(node)
+
+        def const(e):
+            return e.value if isinstance(e, ast.Constant) and isinstance(e.value, bool) else None
+
+        if const(node.body) is True:
+            return ast.BoolOp(op=ast.Or(), values=[node.test, node.orelse])
+        if const(node.body) is False:
+            return ast.BoolOp(op=ast.And(), values=[_neg(node.test), node.orelse])
+        if const(node.orelse) is False:
+            return ast.BoolOp(op=ast.And(), values=[node.test, node.body])
+        if const(node.orelse) is True:
+            return ast.BoolOp(op=ast.Or(), values=[_neg(node.test), node.body])
+        return node
+
+
+class _LenTruth(ast.NodeTransformer):
+    """Inside a TEST: `len(x) > 0`, `len(x) != 0`, `len(x) >= 1`, `0 < len(x)` = `x`;  `len(x) == 0`, `len(x) < 1` = `not x`
+    (sized containers are truthy iff non-empty)."""
+
+    @staticmethod
+    def _len_arg(e: ast.expr) -> ast.expr | None:
+        if isinstance(e, ast.Call) and isinstance(e.func, ast.Name) and e.func.id == "len" and len(e.args) == 1 and not e.keywords:
+            return e.args[0]
+        return None
+
+    def visit_Compare(self, node: ast.Compare):  # noqa: N802
+        self.generic_visit(node)
+        if len(node.ops) != 1:
+            return node
+        l, r, op = node.left, node.comparators[0], type(node.ops[0])
+        if self._len_arg(r) is not None and self._len_arg(l) is None:
+            mirror = {ast.Lt: ast.Gt, ast.LtE: ast.GtE, ast.Gt: ast.Lt, ast.GtE: ast.LtE, ast.Eq: ast.Eq, ast.NotEq: ast.NotEq}
+            if op not in mirror:
+                return node
+            l, r, op = r, l, mirror[op]
+        x = self._len_arg(l)
+        if x is None or not (isinstance(r, ast.Constant) and type(r.value) is int):
+            return node
+        k = r.value
+        if (op, k) in ((ast.Gt, 0), (ast.NotEq, 0), (ast.GtE, 1)):
+            return x
+        if (op, k) in ((ast.Eq, 0), (ast.Lt, 1), (ast.LtE, 0)):
+            return ast.UnaryOp(op=ast.Not(), operand=x)
+        return node
+
+
+def _tidy_tests(stmts: list[ast.stmt]) -> list[ast.stmt]:
+    """Simplify boolean conditional expressions in tests; drop an `if` with an effect-free test and two empty branches."""
+    out = []
+    for s in stmts:
+        s = _map_blocks(s, _tidy_tests)
+        if isinstance(s, (ast.If, ast.While)):
+            s.test = _LenTruth().visit(_BoolIfExp().visit(s.test))
+        if isinstance(s, ast.If) and not s.body and not s.orelse and _pure(s.test):
+            continue
+        out.append(s)
+    return out
+
+
+def _tc_branch(b: list[ast.stmt]) -> list[ast.stmt]:
+    if _terminates(b):
+        return b
+    if b and isinstance(b[-1], ast.If):
+        b[-1].body = _tc_branch(b[-1].body)
+        b[-1].orelse = _tc_branch(b[-1].orelse)
+        return b
+    return b + [ast.Continue()]
+
+
+def _loops(stmts: list[ast.stmt]) -> list[ast.stmt]:
+    """`while True:` loops: a leading `if c: break` is the loop test; when the body ends in a `try`/`if`, a handler or
+    branch that falls off its end continues with the next iteration — written out as `continue`."""
+    out = []
+    for s in stmts:
+        s = _map_blocks(s, _loops)
+        if isinstance(s, ast.While) and _u(s.test) == "True" and not s.orelse and s.body:
+            first = s.body[0]
+            if isinstance(first, ast.If) and not first.orelse and len(first.body) == 1 and isinstance(first.body[0], ast.Break):
+                s.test, s.body = _neg(first.test), s.body[1:]
+            else:
+                s.body = _guards(s.body)
+                last = s.body[-1]
+                if isinstance(last, ast.Try) and not last.finalbody:
+                    for h in last.handlers:
+                        h.body = _tc_branch(h.body)
+                elif isinstance(last, ast.If):
+                    last.body, last.orelse = _tc_branch(last.body), _tc_branch(last.orelse)
+        out.append(s)
+    return out
+
+
+def _normalise(fn: ast.FunctionDef | ast.AsyncFunctionDef, cls: ast.ClassDef | None = None, mod: ast.Module | None = None,
+               exclude: frozenset[str] | set[str] = frozenset()) -> list[ast.stmt]:
+    body = _PositionalArgs().visit(ast.Module(body=copy.deepcopy(fn.body), type_ignores=[])).body
     params = {a.arg for a in fn.args.args + fn.args.kwonlyargs}
     body = _strip(body)
+    if cls is not None or mod is not None:
+        body = _inline_helpers(body, cls, mod, set(exclude))
     body = _split_tuple_assign(body)
+    body = _merge_branch_assign(body)
     body = _simplify_locals(body, params)
     body = _strip(body)
+    body = _tidy_tests(body)
+    body = _loops(body)
     body = _guards(body)
+    body = _drop_tail_returns(body)
     return body
 
 
@@ -385,6 +753,9 @@ def _expr(e: ast.expr, env: dict[str, str]) -> str:
             if isinstance(op, (ast.Is, ast.IsNot, ast.Eq, ast.NotEq)) and isinstance(b, ast.Constant) and b.value is None \
                     and env.get(_u(a)) == "limit":
                 return "limit.isNone" if isinstance(op, (ast.Is, ast.Eq)) else "limit.isSome"
+        if env.get(_u(r)) == "n" and env.get(_u(l)) != "n":          # canonical orientation: the counter on the left
+            mirror = {ast.Lt: ast.Gt, ast.LtE: ast.GtE, ast.Gt: ast.Lt, ast.GtE: ast.LtE}.get(type(op))
+            l, r, op = r, l, (mirror() if mirror else op)
         sym = {ast.Lt: "<", ast.LtE: "≤", ast.Gt: ">", ast.GtE: "≥", ast.Eq: "=", ast.NotEq: "≠"}.get(type(op))
         if sym is None:
             raise Bad(f"comparison {_u(e)}")
@@ -446,7 +817,7 @@ def _actor(src: str) -> list[str]:
     d = _fn(actor, "_delay_if_restart")
     arg = d.args.args[1].arg
     sleeping, other = [], []
-    for conds, acts in _paths(_normalise(d)):
+    for conds, acts in _paths(_normalise(d, actor, tree)):
         acts = [a for a in acts if not (isinstance(a, ast.Return) and a.value is None)]
         srcs = [_u(a) for a in acts]
         if srcs == ["await asyncio.sleep(self.RESTART_DELAY.total_seconds())"]:
@@ -462,7 +833,7 @@ def _actor(src: str) -> list[str]:
 
     # _run_loop
     rl = _fn(actor, "_run_loop")
-    body = _normalise(rl)
+    body = _normalise(rl, actor, tree)
     loops = [s for s in body if isinstance(s, ast.While)]
     if len(loops) != 1 or _u(loops[0].test) != "True" or loops[0].orelse:
         raise Bad("_run_loop: expected one `while True:`")
@@ -537,7 +908,7 @@ def _actor(src: str) -> list[str]:
 
     # start(): [clear, add(create_task(_run_loop()))] under `not is_running` (or unconditionally)
     guarded = None
-    for conds, acts in _paths(_normalise(_fn(actor, "start"))):
+    for conds, acts in _paths(_normalise(_fn(actor, "start"), actor, tree)):
         srcs = [_u(a) for a in acts if not (isinstance(a, ast.Return) and a.value is None)]
         if not srcs:
             if [( _u(e), pol) for e, pol in conds] != [("self.is_running", True)]:
@@ -624,18 +995,18 @@ def _collects(forstmt: ast.For, mod: ast.Module) -> str | None:
 def _service(src: str) -> list[str]:
     tree = ast.parse(src)
     svc = _cls(tree, "BackgroundService")
-    wait_b = _normalise(_fn(svc, "wait"))
+    wait_b = _normalise(_fn(svc, "wait"))         # (no inlining yet: is wait() the loop itself or `await self.<helper>()`?)
     loop_fn = _fn(svc, "wait")
-    loop_body = wait_b
     helper = None
-    if _find_loop(wait_b) is None:
-        if not (len(wait_b) == 1 and isinstance(wait_b[0], ast.Expr) and isinstance(wait_b[0].value, ast.Await)
-                and isinstance(wait_b[0].value.value, ast.Call) and not wait_b[0].value.value.args
-                and not wait_b[0].value.value.keywords and _u(wait_b[0].value.value.func).startswith("self.")):
-            raise Bad("wait(): neither the batch loop nor a plain `await self.<helper>()`")
+    if (len(wait_b) == 1 and isinstance(wait_b[0], ast.Expr) and isinstance(wait_b[0].value, ast.Await)
+            and isinstance(wait_b[0].value.value, ast.Call) and not wait_b[0].value.value.args
+            and not wait_b[0].value.value.keywords and _u(wait_b[0].value.value.func).startswith("self.")):
+        # the loop lives in a helper that takes the cancel flags (stop() calls it with other arguments): keep it apart
         helper = _u(wait_b[0].value.value.func)[5:]
         loop_fn = _fn(svc, helper)
-        loop_body = _inline_result_local(_normalise(loop_fn))
+    loop_body = _inline_result_local(_normalise(loop_fn, svc, tree))
+    if _find_loop(loop_body) is None:
+        raise Bad("wait(): neither the batch loop nor a plain `await self.<helper>()` that has it")
     loop = _find_loop(loop_body)
     if loop is None or loop.orelse:
         raise Bad("batch loop `while self._tasks:` not found")
@@ -700,7 +1071,7 @@ def _service(src: str) -> list[str]:
 
     # stop(): nothing when `_tasks` is empty; else cancel + wait, re-raise the group minus CancelledError
     stop = _fn(svc, "stop")
-    sb = _normalise(stop)
+    sb = _normalise(stop, svc, tree, {helper} if helper else set())
     work = None
     for conds, acts in _paths(sb):
         acts = [a for a in acts if not (isinstance(a, ast.Return) and a.value is None)]
@@ -761,7 +1132,7 @@ def _service(src: str) -> list[str]:
         raise Bad("stop(): the group minus CancelledError is never re-raised")
 
     # is_running / cancel
-    isr = _normalise(_fn(svc, "is_running"))
+    isr = _normalise(_fn(svc, "is_running"), svc, tree)
     ok = False
     if len(isr) == 1 and isinstance(isr[0], ast.Return) and isinstance(isr[0].value, ast.Call) and _u(isr[0].value.func) == "any" \
             and len(isr[0].value.args) == 1 and isinstance(isr[0].value.args[0], (ast.GeneratorExp, ast.ListComp)):
@@ -777,7 +1148,7 @@ def _service(src: str) -> list[str]:
             ok = True
     if not ok:
         raise Bad("is_running: not `any(not task.done() for task in self._tasks)`")
-    can = _normalise(_fn(svc, "cancel"))
+    can = _normalise(_fn(svc, "cancel"), svc, tree)
     if not (len(can) == 1 and isinstance(can[0], ast.For) and _u(can[0].iter) == "self._tasks" and isinstance(can[0].target, ast.Name)
             and [_u(x) for x in can[0].body] == [f"{can[0].target.id}.cancel(msg)"] and not can[0].orelse):
         raise Bad("cancel(): not `for task in self._tasks: task.cancel(msg)`")
@@ -833,7 +1204,7 @@ def _cancel_and_await(src: str) -> list[str]:
     fn = _fn(tree, "cancel_and_await")
     task = fn.args.args[0].arg
     early, work = [], []
-    for conds, acts in _paths(_normalise(fn)):
+    for conds, acts in _paths(_normalise(fn, None, tree)):
         acts = [a for a in acts if not (isinstance(a, ast.Return) and a.value is None)]
         (work if acts else early).append((conds, acts))
     if not work:
